@@ -746,6 +746,22 @@ func (sc *Scope) trBinary(x *EBinary) (Term, types.Type) {
 	case "%":
 		return goMod(a, b), rt
 	case "&", "|":
+		if x.Op == "&" {
+			if m, ok := intLiteral(b); ok && m >= 0 {
+				return bitandConst(a, m), rt
+			}
+			if m, ok := intLiteral(a); ok && m >= 0 {
+				return bitandConst(b, m), rt
+			}
+		}
+		if x.Op == "|" {
+			// constant | constant
+			if m1, ok1 := intLiteral(a); ok1 {
+				if m2, ok2 := intLiteral(b); ok2 {
+					return IntLit(m1 | m2), rt
+				}
+			}
+		}
 		name := map[string]string{"&": "bitand", "|": "bitor"}[x.Op]
 		fc.eng.GDecl(name, fmt.Sprintf("(declare-fun %s (Int Int) Int)", name))
 		fc.eng.bitAxioms()
